@@ -3,7 +3,7 @@ LEVEL = "proof"
 F = "harness/c18_random.c"
 HARNESSES = [
     H(name="C09.lp_init_function_of_seed_and_id", file=F, entry="h_lp_init_function_of_seed_and_id", funcs=["random_lib_lp_init", "xxtea_encode"],
-      unwindset=("xxtea_encode.0:8", "xxtea_encode.1:15", "h_lp_init_function_of_seed_and_id.0:5"), timeout=900, mem_gb=8,
+      unwindset=("xxtea_encode.0:8", "xxtea_encode.1:15", "h_lp_init_function_of_seed_and_id.0:5"), timeout=900, mem_gb=8, solver="kissat",
       desc="self-composition: two runs of the real random_lib_lp_init+xxtea_encode with equal (seed, lp_id) and every other runtime global (rid, nid, n_nodes, lid_node_first, current_lp, target address, prior content) different give equal states; loops are constant (14 rounds x 8 words), unwound completely"),
     H(name="C09.lp_init_contract", file=F, entry="h_lp_init_contract", enforce="random_lib_lp_init", funcs=["random_lib_lp_init"],
       unwindset=("xxtea_encode.0:8", "xxtea_encode.1:15", "h_lp_init_contract.0:5"), timeout=900,
